@@ -1,16 +1,21 @@
 import QipVerif.Lemmas.RouteDen
 import QipVerif.Lemmas.RouteC
+import QipVerif.Lemmas.RouteCond
 /-!
 # C07 — nearest-neighbour routing preserves the unitary and yields adjacent gates only
 
-Property theorems only.  `Route.toChain N setup gs` is the model of
-`to_chain_structure(qc, setup).gates` (`Route.routeGate` of one loop iteration) **with the four
-repairs `fixes/C07-{1,2,3,4}.patch` applied**; `Route.toChainV Variant.old` is the code as found
-at the pinned commit, for which the property is false (counter-examples at the end).
-`Route.adjacentGates` models `QubitCircuit.adjacent_gates`.
+Property theorems only.  `Route.toChainV (Variant.rep cc) N setup gs` is the model of
+`to_chain_structure(qc, setup).gates` (`Route.routeGateV` of one loop iteration) **with the four
+repairs `fixes/C07-{1,2,3,4}.patch` applied**; `cc` says whether `fixes/C07-5.patch` (the re-emitted
+gate keeps the classical condition of the routed gate) is in place as well — the harness reads it from
+the source, every theorem below covers both values.  `Route.toChainV Variant.old` is the code as
+found at the pinned commit, for which the property is false (counter-examples at the end).
+`Route.adjacentGatesV` models `QubitCircuit.adjacent_gates`.
 
-All theorems hold for every register size `N`, both topologies, every ordered pair of distinct
-in-range qubits and every handled gate name (`WellFormed`, `Handled`); nothing is bounded.
+All theorems hold for every register size `N`, **every `setup` string** (`"linear"`: open chain,
+`"circular"`: ring, any other string: ring, always through the wrap-around pair — `Setup.eff`), every
+ordered pair of distinct in-range qubits and every handled gate name (`WellFormed`, `Handled`);
+nothing is bounded.
 -/
 namespace QipVerif.C07
 open QipVerif.Route
@@ -18,10 +23,10 @@ open QipVerif.Route
 /-! ## one handled gate -/
 
 /-- **(i) indices.** Every qubit index of every gate emitted for a handled gate is `< N`. -/
-theorem route_in_range (N : Nat) (setup : Setup) (hs : setup = .linear ∨ setup = .circular)
+theorem route_in_range (cc : Bool) (N : Nat) (setup : Setup)
     (g : Route.Gate) (hw : WellFormed N g) (hh : Handled g) (out : List Route.Gate)
-    (ho : routeGate N setup g = .ok out) : ∀ h ∈ out, ∀ q ∈ h.qubits, q < N := by
-  obtain ⟨out', S, G, a, b, h1, -, -, ha, hb, hr, -, hq⟩ := routeGate_handled_spec N setup hs g hw hh
+    (ho : routeGateV (.rep cc) N setup g = .ok out) : ∀ h ∈ out, ∀ q ∈ h.qubits, q < N := by
+  obtain ⟨out', S, G, a, b, h1, -, -, ha, hb, hr, -, hq, -⟩ := routeGateV_handled_spec cc N setup g hw hh
   rw [h1] at ho; cases ho
   intro h hm q hq'
   rcases hr.mem hm with rfl | ⟨p, hp, rfl⟩
@@ -41,11 +46,13 @@ example : WellFormed 9 ⟨.CNOT, [0], [5], 0, 0⟩ ∧ Handled ⟨.CNOT, [0], [5
     by decide, by decide⟩
 
 /-- **(ii) adjacency.** Every gate emitted for a handled gate is a two-qubit gate on neighbours of
-the topology: `(i, i+1)`, or the wrap pair `{0, N-1}` on a ring. -/
-theorem route_adjacent (N : Nat) (setup : Setup) (hs : setup = .linear ∨ setup = .circular)
+the topology the `setup` string is routed on (`Setup.eff`): `(i, i+1)`, or the wrap pair `{0, N-1}`
+on a ring. -/
+theorem route_adjacent (cc : Bool) (N : Nat) (setup : Setup)
     (g : Route.Gate) (hw : WellFormed N g) (hh : Handled g) (out : List Route.Gate)
-    (ho : routeGate N setup g = .ok out) : ∀ h ∈ out, ∃ i j, h.qubits = [i, j] ∧ Adj setup N i j := by
-  obtain ⟨out', S, G, a, b, h1, -, -, -, -, hr, -, hq⟩ := routeGate_handled_spec N setup hs g hw hh
+    (ho : routeGateV (.rep cc) N setup g = .ok out) :
+    ∀ h ∈ out, ∃ i j, h.qubits = [i, j] ∧ Adj setup.eff N i j := by
+  obtain ⟨out', S, G, a, b, h1, -, -, -, -, hr, -, hq, -⟩ := routeGateV_handled_spec cc N setup g hw hh
   rw [h1] at ho; cases ho
   intro h hm
   rcases hr.mem hm with rfl | ⟨p, hp, rfl⟩
@@ -54,21 +61,24 @@ theorem route_adjacent (N : Nat) (setup : Setup) (hs : setup = .linear ∨ setup
     · exact ⟨_, _, hq, hr.adj.symm⟩
   · exact ⟨p.1, p.2, rfl, (hr.swaps_ok p hp).2.2.2⟩
 
-example : Adj .circular 9 8 0 ∧ ¬ Adj .linear 9 8 0 ∧ Adj .linear 9 6 7 := by decide
+example : Adj .circular 9 8 0 ∧ ¬ Adj .linear 9 8 0 ∧ Adj .linear 9 6 7 ∧
+    Setup.linear.eff = .linear ∧ Setup.circular.eff = .circular ∧ Setup.other.eff = .circular := by decide
 
 /-- **(iii) shape, CNOT / CSIGN.** The output is `S ++ [G] ++ S'` with `S` a list of SWAPs on
 neighbouring in-range qubits, `S' = S` reversed; `G` has the gate's name, its control is where `S`
-moved the control and its target where `S` moved the target; `S ++ S'` is the identity permutation. -/
-theorem route_shape_ctl (N : Nat) (setup : Setup) (hs : setup = .linear ∨ setup = .circular)
+moved the control and its target where `S` moved the target; `S ++ S'` is the identity permutation.
+`G` carries the gate's classical condition iff `cc` (`Variant.cond`); the SWAPs never carry one. -/
+theorem route_shape_ctl (cc : Bool) (N : Nat) (setup : Setup)
     (g : Route.Gate) (c t : Nat) (hnm : g.name.isCtl = true) (hC : g.controls = [c]) (hT : g.targets = [t])
     (hct : c ≠ t) (hc : c < N) (ht : t < N) :
     ∃ S : List (Nat × Nat),
-      routeGate N setup g = .ok (swaps S ++ ⟨g.name, [track S c], [track S t], 0, 0⟩ :: swaps S.reverse) ∧
-      (∀ p ∈ S, p.1 < N ∧ p.2 < N ∧ p.1 ≠ p.2 ∧ Adj setup N p.1 p.2) ∧
-      Adj setup N (track S c) (track S t) ∧
+      routeGateV (.rep cc) N setup g =
+        .ok (swaps S ++ ⟨g.name, [track S c], [track S t], 0, if cc then g.extra else 0⟩ :: swaps S.reverse) ∧
+      (∀ p ∈ S, p.1 < N ∧ p.2 < N ∧ p.1 ≠ p.2 ∧ Adj setup.eff N p.1 p.2) ∧
+      Adj setup.eff N (track S c) (track S t) ∧
       ∀ x, track (S ++ S.reverse) x = x := by
-  obtain ⟨out, S, h1, h2⟩ := routeCtl_spec N setup hs g c t hnm hC hT hct hc ht
-  exact ⟨S, by rw [routeGate_ctl hnm hC hT, h1, h2.out_eq], h2.swaps_ok, h2.adj, track_palindrome S⟩
+  obtain ⟨out, S, h1, h2⟩ := routeCtl_specV cc N setup g c t hnm hC hT hct hc ht
+  exact ⟨S, by rw [routeGateV_ctl hnm hC hT, h1, h2.out_eq]; rfl, h2.swaps_ok, h2.adj, track_palindrome S⟩
 
 example : ∃ S, S = [(4, 5), (6, 0)] ∧ track S 4 = 5 ∧ track S 0 = 6 ∧
     routeGate 7 .circular ⟨.CNOT, [0], [4], 0, 0⟩ =
@@ -78,77 +88,106 @@ example : ∃ S, S = [(4, 5), (6, 0)] ∧ track S 4 = 5 ∧ track S 0 = 6 ∧
 /-- **(iii) shape, exchange-type gates** (SWAP, ISWAP, SQRTISWAP, SQRTSWAP, BERKELEY, SWAPalpha):
 as above; `G` keeps name and argument and acts on the images of the two targets, listed in one
 of the two orders (these gates are symmetric, see `SwapLaws.exch_symm`). -/
-theorem route_shape_swp (N : Nat) (setup : Setup) (hs : setup = .linear ∨ setup = .circular)
+theorem route_shape_swp (cc : Bool) (N : Nat) (setup : Setup)
     (g : Route.Gate) (t0 t1 : Nat) (hnm : g.name.isSwp = true) (hT : g.targets = [t0, t1])
     (h01 : t0 ≠ t1) (h0 : t0 < N) (h1 : t1 < N) :
     ∃ (S : List (Nat × Nat)) (p q : Nat),
-      routeGate N setup g = .ok (swaps S ++ ⟨g.name, [], [p, q], g.arg, 0⟩ :: swaps S.reverse) ∧
+      routeGateV (.rep cc) N setup g =
+        .ok (swaps S ++ ⟨g.name, [], [p, q], g.arg, if cc then g.extra else 0⟩ :: swaps S.reverse) ∧
       ((p = track S t0 ∧ q = track S t1) ∨ (p = track S t1 ∧ q = track S t0)) ∧
-      (∀ p ∈ S, p.1 < N ∧ p.2 < N ∧ p.1 ≠ p.2 ∧ Adj setup N p.1 p.2) ∧
-      Adj setup N (track S t0) (track S t1) ∧
+      (∀ p ∈ S, p.1 < N ∧ p.2 < N ∧ p.1 ≠ p.2 ∧ Adj setup.eff N p.1 p.2) ∧
+      Adj setup.eff N (track S t0) (track S t1) ∧
       ∀ x, track (S ++ S.reverse) x = x := by
-  obtain ⟨S, p, q, h2, h3⟩ := routeSwp_spec N setup hs g t0 t1 h01 h0 h1
-  exact ⟨S, p, q, by rw [routeGate_swp hnm hT, h2.out_eq], h3, h2.swaps_ok, h2.adj, track_palindrome S⟩
+  obtain ⟨S, p, q, h2, h3⟩ := routeSwp_specV cc N setup g t0 t1 h01 h0 h1
+  exact ⟨S, p, q, by rw [routeGateV_swp hnm hT, h2.out_eq]; rfl, h3, h2.swaps_ok, h2.adj, track_palindrome S⟩
 
 example : routeGate 6 .linear ⟨.SWAPalpha, [], [5, 1], 7, 0⟩ =
     .ok (swaps [(1, 2), (4, 5), (2, 3)] ++ ⟨.SWAPalpha, [], [3, 4], 7, 0⟩ :: swaps [(2, 3), (4, 5), (1, 2)]) := by
   decide
 
+/-- **Any other `setup` string** (the code compares with `"linear"` and `"circular"` only and raises
+nothing): the gate is routed **on the ring, always through the wrap-around pair** — the backward
+path, whatever the distance.  Indices are in range, every emitted gate acts on ring neighbours
+(an instance of (i), (ii) with `Setup.other.eff = circular`); the output is in general neither that
+of `"linear"` nor that of `"circular"` (examples below).  (v) holds for it as well (`route_den`). -/
+theorem route_other_setup (cc : Bool) (N : Nat) (g : Route.Gate) (hw : WellFormed N g) (hh : Handled g)
+    (out : List Route.Gate) (ho : routeGateV (.rep cc) N .other g = .ok out) :
+    (∀ h ∈ out, ∀ q ∈ h.qubits, q < N) ∧ ∀ h ∈ out, ∃ i j, h.qubits = [i, j] ∧ Adj .circular N i j :=
+  ⟨route_in_range cc N .other g hw hh out ho, route_adjacent cc N .other g hw hh out ho⟩
+
+-- neighbours 0, 1 on four qubits: "linear" and "circular" leave the gate alone, any other string
+-- walks it round the ring through (3, 0); an exchange gate on the wrap pair comes out with its
+-- targets in ring order
+example : routeGate 4 .other ⟨.CNOT, [0], [1], 0, 0⟩ =
+      .ok [swapG 1 2, swapG 3 0, ⟨.CNOT, [3], [2], 0, 0⟩, swapG 3 0, swapG 1 2] ∧
+    routeGate 4 .circular ⟨.CNOT, [0], [1], 0, 0⟩ = .ok [⟨.CNOT, [0], [1], 0, 0⟩] ∧
+    routeGate 4 .linear ⟨.CNOT, [0], [1], 0, 0⟩ = .ok [⟨.CNOT, [0], [1], 0, 0⟩] ∧
+    routeGate 3 .other ⟨.ISWAP, [], [0, 2], 0, 0⟩ = .ok [⟨.ISWAP, [], [2, 0], 0, 0⟩] ∧
+    ¬ Adj .linear 4 3 0 := by decide
+
 /-! ## pass-through and circuits -/
 
 /-- **(iv)** a gate the router does not handle (any other name, a measurement) comes out as it is -/
-theorem route_passthrough (N : Nat) (setup : Setup) (g : Route.Gate) (h : ¬ Handled g) :
-    routeGate N setup g = .ok [g] := routeGate_other h
+theorem route_passthrough (cc : Bool) (N : Nat) (setup : Setup) (g : Route.Gate) (h : ¬ Handled g) :
+    routeGateV (.rep cc) N setup g = .ok [g] := routeGateV_other h
 
 example : ¬ Handled ⟨.other 3, [0, 4], [2], 5, 1⟩ ∧ ¬ Handled ⟨.meas 0, [], [1], 0, 0⟩ := by decide
 
-/-- **(iv)** the output of a circuit is the concatenation, in order, of the per-gate outputs -/
-theorem route_concat (N : Nat) (setup : Setup) (gs out : List Route.Gate) :
-    toChain N setup gs = .ok out ↔
-      ∃ parts : List (List Route.Gate), gs.map (routeGate N setup) = parts.map Except.ok ∧ out = parts.flatten :=
-  toChain_concat N setup gs out
+/-- **(iv)** the output of a circuit is the concatenation, in order, of the per-gate outputs — for
+every variant of the code: the router keeps **no state** between gates (nor between calls: the
+model is a function of `(N, setup, gs)`) -/
+theorem route_concat (v : Variant) (N : Nat) (setup : Setup) (gs out : List Route.Gate) :
+    toChainV v N setup gs = .ok out ↔
+      ∃ parts : List (List Route.Gate), gs.map (routeGateV v N setup) = parts.map Except.ok ∧ out = parts.flatten :=
+  toChainV_concat v N setup gs out
 
 /-- … in particular routing distributes over concatenation of circuits -/
-theorem route_append (N : Nat) (setup : Setup) (gs₁ gs₂ out : List Route.Gate) :
-    toChain N setup (gs₁ ++ gs₂) = .ok out ↔
-      ∃ a b, toChain N setup gs₁ = .ok a ∧ toChain N setup gs₂ = .ok b ∧ out = a ++ b :=
-  toChain_append N setup gs₁ gs₂ out
+theorem route_append (v : Variant) (N : Nat) (setup : Setup) (gs₁ gs₂ out : List Route.Gate) :
+    toChainV v N setup (gs₁ ++ gs₂) = .ok out ↔
+      ∃ a b, toChainV v N setup gs₁ = .ok a ∧ toChainV v N setup gs₂ = .ok b ∧ out = a ++ b :=
+  toChainV_append v N setup gs₁ gs₂ out
+
+-- both orientations of one long-way pair in one circuit: each is routed as it is routed alone
+example : toChain 7 .circular [⟨.CNOT, [0], [4], 0, 0⟩, ⟨.CNOT, [4], [0], 0, 0⟩] =
+    .ok ([swapG 4 5, swapG 6 0, ⟨.CNOT, [6], [5], 0, 0⟩, swapG 6 0, swapG 4 5] ++
+         [swapG 4 5, swapG 6 0, ⟨.CNOT, [5], [6], 0, 0⟩, swapG 6 0, swapG 4 5]) := by decide
 
 /-- routing a circuit of well-formed gates never raises -/
-theorem route_total (N : Nat) (setup : Setup) (hs : setup = .linear ∨ setup = .circular)
-    (gs : List Route.Gate) (hw : ∀ g ∈ gs, WellFormed N g) : ∃ out, toChain N setup gs = .ok out :=
-  toChain_total N setup hs gs hw
+theorem route_total (cc : Bool) (N : Nat) (setup : Setup)
+    (gs : List Route.Gate) (hw : ∀ g ∈ gs, WellFormed N g) : ∃ out, toChainV (.rep cc) N setup gs = .ok out :=
+  toChainV_total cc N setup gs hw
 
 /-- **(iv)** the unhandled gates of the output are exactly those of the input, unchanged and in order -/
-theorem circuit_passthrough_order (N : Nat) (setup : Setup) (hs : setup = .linear ∨ setup = .circular)
-    (gs : List Route.Gate) (hw : ∀ g ∈ gs, WellFormed N g) (out : List Route.Gate) (ho : toChain N setup gs = .ok out) :
+theorem circuit_passthrough_order (cc : Bool) (N : Nat) (setup : Setup)
+    (gs : List Route.Gate) (hw : ∀ g ∈ gs, WellFormed N g) (out : List Route.Gate)
+    (ho : toChainV (.rep cc) N setup gs = .ok out) :
     out.filter (fun h => !decide (Handled h)) = gs.filter (fun h => !decide (Handled h)) :=
-  toChain_unhandled_order N setup hs gs hw out ho
+  toChainV_unhandled_order cc N setup gs hw out ho
 
 /-- **(i) for circuits.** If the unhandled input gates are in range, every index of the output is. -/
-theorem circuit_in_range (N : Nat) (setup : Setup) (hs : setup = .linear ∨ setup = .circular)
+theorem circuit_in_range (cc : Bool) (N : Nat) (setup : Setup)
     (gs : List Route.Gate) (hw : ∀ g ∈ gs, WellFormed N g)
     (hr : ∀ g ∈ gs, ¬ Handled g → ∀ q ∈ g.qubits, q < N)
-    (out : List Route.Gate) (ho : toChain N setup gs = .ok out) : ∀ h ∈ out, ∀ q ∈ h.qubits, q < N := by
+    (out : List Route.Gate) (ho : toChainV (.rep cc) N setup gs = .ok out) : ∀ h ∈ out, ∀ q ∈ h.qubits, q < N := by
   intro h hm
-  obtain ⟨g, hg, a, ha, hma⟩ := toChain_mem ho hm
+  obtain ⟨g, hg, a, ha, hma⟩ := toChainV_mem ho hm
   by_cases hh : Handled g
-  · exact route_in_range N setup hs g (hw g hg) hh a ha h hma
-  · rw [routeGate_other hh] at ha; cases ha
+  · exact route_in_range cc N setup g (hw g hg) hh a ha h hma
+  · rw [routeGateV_other hh] at ha; cases ha
     simp at hma; subst hma
     exact hr h hg hh
 
 /-- **(ii) for circuits.** Every gate of the output is an unhandled gate of the input or a
 two-qubit gate on neighbours. -/
-theorem circuit_adjacent (N : Nat) (setup : Setup) (hs : setup = .linear ∨ setup = .circular)
+theorem circuit_adjacent (cc : Bool) (N : Nat) (setup : Setup)
     (gs : List Route.Gate) (hw : ∀ g ∈ gs, WellFormed N g)
-    (out : List Route.Gate) (ho : toChain N setup gs = .ok out) :
-    ∀ h ∈ out, (h ∈ gs ∧ ¬ Handled h) ∨ ∃ i j, h.qubits = [i, j] ∧ Adj setup N i j := by
+    (out : List Route.Gate) (ho : toChainV (.rep cc) N setup gs = .ok out) :
+    ∀ h ∈ out, (h ∈ gs ∧ ¬ Handled h) ∨ ∃ i j, h.qubits = [i, j] ∧ Adj setup.eff N i j := by
   intro h hm
-  obtain ⟨g, hg, a, ha, hma⟩ := toChain_mem ho hm
+  obtain ⟨g, hg, a, ha, hma⟩ := toChainV_mem ho hm
   by_cases hh : Handled g
-  · exact Or.inr (route_adjacent N setup hs g (hw g hg) hh a ha h hma)
-  · rw [routeGate_other hh] at ha; cases ha
+  · exact Or.inr (route_adjacent cc N setup g (hw g hg) hh a ha h hma)
+  · rw [routeGateV_other hh] at ha; cases ha
     simp at hma; subst hma
     exact Or.inl ⟨hg, hh⟩
 
@@ -164,40 +203,43 @@ variable {M : Type} [Monoid M]
 /-- **(v) route_den, one gate.** Over any monoid and any interpretation of gates that satisfies
 the one hypothesis `SwapLaws` (SWAP on two distinct qubits squares to one and conjugation by it
 relabels a two-qubit gate by the transposition; exchange-type gates are symmetric), the product
-of the routed gates is the gate. -/
-theorem route_den_gate {N : Nat} {interp : Route.Gate → M} (laws : SwapLaws N interp) (setup : Setup)
-    (hs : setup = .linear ∨ setup = .circular) (g : Route.Gate) (hw : WellFormed N g) (hh : Handled g)
-    (hp : Plain g) (out : List Route.Gate) (ho : routeGate N setup g = .ok out) :
+of the routed gates is the gate.  Every `setup`.  `hx`: as long as the router drops classical
+conditions (`cc = false`) the gate must not carry one (`C07_counterexample_condition_dropped`). -/
+theorem route_den_gate {N : Nat} {interp : Route.Gate → M} (laws : SwapLaws N interp) (cc : Bool) (setup : Setup)
+    (g : Route.Gate) (hw : WellFormed N g) (hh : Handled g)
+    (hp : PlainArg g) (hx : cc = false → g.extra = 0) (out : List Route.Gate)
+    (ho : routeGateV (.rep cc) N setup g = .ok out) :
     den interp out = interp g :=
-  routeGate_den laws setup hs g hw hh hp out ho
+  routeGateV_den laws cc setup g hw hh hp hx out ho
 
 /-- **(v) route_den.** The routed circuit has the same product as the input circuit. -/
-theorem route_den {N : Nat} {interp : Route.Gate → M} (laws : SwapLaws N interp) (setup : Setup)
-    (hs : setup = .linear ∨ setup = .circular) (gs : List Route.Gate) (hw : ∀ g ∈ gs, WellFormed N g)
-    (hp : ∀ g ∈ gs, Handled g → Plain g) (out : List Route.Gate) (ho : toChain N setup gs = .ok out) :
-    den interp out = den interp gs := by
-  induction gs generalizing out with
-  | nil =>
-    have : out = [] := by simpa [toChain, toChainV] using ho.symm
-    rw [this]
-  | cons g gs ih =>
-    obtain ⟨a, b, ha, hb, rfl⟩ := (toChain_cons ..).mp ho
-    have hb' := ih (fun g hg => hw g (List.mem_cons_of_mem _ hg))
-      (fun g hg => hp g (List.mem_cons_of_mem _ hg)) b hb
-    rw [den_append, hb', den]
-    congr 1
-    by_cases hh : Handled g
-    · exact routeGate_den laws setup hs g (hw g (List.mem_cons_self ..)) hh (hp g (List.mem_cons_self ..) hh) a ha
-    · rw [routeGate_other hh] at ha; cases ha
-      simp [den]
+theorem route_den {N : Nat} {interp : Route.Gate → M} (laws : SwapLaws N interp) (cc : Bool) (setup : Setup)
+    (gs : List Route.Gate) (hw : ∀ g ∈ gs, WellFormed N g)
+    (hp : ∀ g ∈ gs, Handled g → PlainArg g) (hx : cc = false → ∀ g ∈ gs, Handled g → g.extra = 0)
+    (out : List Route.Gate) (ho : toChainV (.rep cc) N setup gs = .ok out) :
+    den interp out = den interp gs :=
+  toChainV_den laws cc setup gs hw hp hx out ho
+
+/-- **(v) with classical conditions** (`fixes/C07-5.patch`, `cc = true`): for every valuation `fire` of
+the classical conditions — a conditioned gate is its operator if the condition holds and the
+identity otherwise (`condInterp`) — the routed circuit has the same product; no gate is excluded.
+(The SWAPs are unconditional; if the condition does not hold they cancel.) -/
+theorem route_den_cond {N : Nat} {interp : Route.Gate → M} (laws : SwapLaws N interp) (fire : Nat → Bool)
+    (setup : Setup) (gs : List Route.Gate) (hw : ∀ g ∈ gs, WellFormed N g)
+    (hp : ∀ g ∈ gs, Handled g → PlainArg g)
+    (out : List Route.Gate) (ho : toChainV (.rep true) N setup gs = .ok out) :
+    den (condInterp fire interp) out = den (condInterp fire interp) gs :=
+  toChainV_den (laws.cond fire) true setup gs hw hp (fun h => absurd h (by decide)) out ho
 end
 
--- the hypotheses are met by a concrete non-trivial circuit
-example : (∀ g ∈ [⟨.other 1, [], [3], 2, 0⟩, ⟨.CNOT, [0], [5], 0, 0⟩, (⟨.SWAPalpha, [], [7, 2], 4, 0⟩ : Route.Gate)],
+-- the hypotheses are met by a concrete non-trivial circuit (the second gate carries condition 3)
+example : (∀ g ∈ [⟨.other 1, [], [3], 2, 0⟩, ⟨.CNOT, [0], [5], 0, 3⟩, (⟨.SWAPalpha, [], [7, 2], 4, 0⟩ : Route.Gate)],
       WellFormed 9 g) ∧
-    (∀ g ∈ [⟨.other 1, [], [3], 2, 0⟩, ⟨.CNOT, [0], [5], 0, 0⟩, (⟨.SWAPalpha, [], [7, 2], 4, 0⟩ : Route.Gate)],
-      Handled g → Plain g) := by
-  constructor
+    (∀ g ∈ [⟨.other 1, [], [3], 2, 0⟩, ⟨.CNOT, [0], [5], 0, 3⟩, (⟨.SWAPalpha, [], [7, 2], 4, 0⟩ : Route.Gate)],
+      Handled g → PlainArg g) ∧
+    toChainV (.rep true) 9 .circular [⟨.CNOT, [0], [5], 0, 3⟩] =
+      .ok [swapG 5 6, swapG 8 0, swapG 6 7, ⟨.CNOT, [8], [7], 0, 3⟩, swapG 6 7, swapG 8 0, swapG 5 6] := by
+  refine ⟨?_, ?_, by decide⟩
   · intro g hg
     simp only [List.mem_cons, List.not_mem_nil, or_false] at hg
     rcases hg with rfl | rfl | rfl
@@ -207,26 +249,35 @@ example : (∀ g ∈ [⟨.other 1, [], [3], 2, 0⟩, ⟨.CNOT, [0], [5], 0, 0⟩
   · intro g hg _
     simp only [List.mem_cons, List.not_mem_nil, or_false] at hg
     rcases hg with rfl | rfl | rfl
-    · exact ⟨rfl, fun h => absurd h (by decide)⟩
-    · exact ⟨rfl, fun _ => rfl⟩
-    · exact ⟨rfl, fun h => absurd h (by decide)⟩
+    · exact fun h => absurd h (by decide)
+    · exact fun _ => rfl
+    · exact fun h => absurd h (by decide)
+
+/-- gates without a classical condition are routed identically whether or not `fixes/C07-5.patch` is
+in place (so everything C13 proves about `toChain` holds for both) -/
+theorem condition_irrelevant_plain (cc : Bool) (N : Nat) (setup : Setup) (gs : List Route.Gate)
+    (hx : ∀ g ∈ gs, g.extra = 0) : toChainV (.rep cc) N setup gs = toChain N setup gs :=
+  toChainV_cc_irrelevant cc N setup gs hx
+
+example : toChainV (.rep true) 7 .circular [⟨.CNOT, [0], [4], 0, 0⟩] = toChain 7 .circular [⟨.CNOT, [0], [4], 0, 0⟩] :=
+  condition_irrelevant_plain true 7 .circular _ (by simp)
 
 /-! ## `adjacent_gates` -/
 
 /-- `QubitCircuit.adjacent_gates` on a circuit of handled gates is the open-chain router
 (so (i)–(v) apply to it with `setup = linear`) … -/
-theorem adjacent_gates_eq_linear (N : Nat) (gs : List Route.Gate) (hh : ∀ g ∈ gs, Handled g) :
-    adjacentGates gs = toChain N .linear gs := by
+theorem adjacent_gates_eq_linear (cc : Bool) (N : Nat) (gs : List Route.Gate) (hh : ∀ g ∈ gs, Handled g) :
+    adjacentGatesV (.rep cc) gs = toChainV (.rep cc) N .linear gs := by
   have : gs.any isMeas = false := by
     rw [List.any_eq_false]; intro g hg; simp [not_isMeas_of_handled (hh g hg)]
-  simp only [adjacentGates, adjacentGatesV, this]
-  exact adjLoop_eq_toChain N gs hh
+  simp only [adjacentGatesV, this]
+  exact adjLoop_eq_toChainV cc N gs hh
 
 /-- … and it refuses circuits that contain a measurement. -/
-theorem adjacent_gates_refuses_measurement (gs : List Route.Gate) (h : ∃ g ∈ gs, isMeas g = true) :
-    adjacentGates gs = .error .notImplemented := by
+theorem adjacent_gates_refuses_measurement (v : Variant) (gs : List Route.Gate) (h : ∃ g ∈ gs, isMeas g = true) :
+    adjacentGatesV v gs = .error .notImplemented := by
   have : gs.any isMeas = true := List.any_eq_true.mpr h
-  simp [adjacentGates, adjacentGatesV, this]
+  simp [adjacentGatesV, this]
 
 example : adjacentGates [⟨.ISWAP, [], [3, 0], 0, 0⟩] = toChain 4 .linear [⟨.ISWAP, [], [3, 0], 0, 0⟩] ∧
     adjacentGates [⟨.ISWAP, [], [3, 0], 0, 0⟩] =
@@ -287,24 +338,55 @@ theorem swapLaws_C_full (N : Nat) (α : ℕ → ℝ) (oth : Route.Gate → Matri
       place2 N i j SWAP2 * oth g * place2 N i j SWAP2 = oth (g.relabel (swapAt i j))) :
     SwapLaws N (interpC N α oth) := swapLaws_interpC N α oth hoth
 
-/-- **(v) over ℂ, one gate.** For every register size `N`, both topologies, every well-formed
+/-- **(v) over ℂ, one gate.** For every register size `N`, every `setup`, every well-formed
 handled gate: the product of the embedded complex matrices of the routed gates (later gates on
 the left) is the embedded matrix of the gate. -/
-theorem route_den_gate_C (N : Nat) (α : ℕ → ℝ) (oth : Route.Gate → Matrix (St N) (St N) ℂ) (setup : Setup)
-    (hs : setup = .linear ∨ setup = .circular) (g : Route.Gate) (hw : WellFormed N g) (hh : Handled g)
-    (hp : Plain g) (out : List Route.Gate) (ho : routeGate N setup g = .ok out) :
-    den (interpC N α oth) out = interpC N α oth g :=
-  routeGate_den_C α oth setup hs g hw hh hp out ho
+theorem route_den_gate_C (N : Nat) (α : ℕ → ℝ) (oth : Route.Gate → Matrix (St N) (St N) ℂ) (cc : Bool)
+    (setup : Setup) (g : Route.Gate) (hw : WellFormed N g) (hh : Handled g)
+    (hp : PlainArg g) (hx : cc = false → g.extra = 0) (out : List Route.Gate)
+    (ho : routeGateV (.rep cc) N setup g = .ok out) :
+    den (interpC N α oth) out = interpC N α oth g := by
+  have := routeGateV_den_C α oth (fun _ => true) cc setup g hw hh hp hx out ho
+  rwa [condInterp_true] at this
 
 /-- **(v) over ℂ, route_den.** The routed circuit is the same operator as the input circuit:
-for every `N`, both topologies, every circuit of well-formed gates (handled gates `Plain`), every
-valuation of the SWAPalpha arguments and every interpretation `oth` of the gates the router passes
-through. -/
-theorem route_den_C (N : Nat) (α : ℕ → ℝ) (oth : Route.Gate → Matrix (St N) (St N) ℂ) (setup : Setup)
-    (hs : setup = .linear ∨ setup = .circular) (gs : List Route.Gate) (hw : ∀ g ∈ gs, WellFormed N g)
-    (hp : ∀ g ∈ gs, Handled g → Plain g) (out : List Route.Gate) (ho : toChain N setup gs = .ok out) :
-    den (interpC N α oth) out = den (interpC N α oth) gs :=
-  toChain_den_C α oth setup hs gs hw hp out ho
+for every `N`, every `setup`, every circuit of well-formed gates (CNOT/CSIGN without `arg_value`; no
+classical condition on a handled gate while the router drops conditions), every valuation of the
+SWAPalpha arguments and every interpretation `oth` of the gates the router passes through. -/
+theorem route_den_C (N : Nat) (α : ℕ → ℝ) (oth : Route.Gate → Matrix (St N) (St N) ℂ) (cc : Bool) (setup : Setup)
+    (gs : List Route.Gate) (hw : ∀ g ∈ gs, WellFormed N g)
+    (hp : ∀ g ∈ gs, Handled g → PlainArg g) (hx : cc = false → ∀ g ∈ gs, Handled g → g.extra = 0)
+    (out : List Route.Gate) (ho : toChainV (.rep cc) N setup gs = .ok out) :
+    den (interpC N α oth) out = den (interpC N α oth) gs := by
+  have := toChainV_den_C α oth (fun _ => true) cc setup gs hw hp hx out ho
+  rwa [condInterp_true] at this
+
+/-- **(v) over ℂ with classical conditions** (`fixes/C07-5.patch`): for every classical state — every
+valuation `fire` of the conditions — the routed circuit is the same operator as the input circuit;
+conditioned gates included. -/
+theorem route_den_cond_C (N : Nat) (α : ℕ → ℝ) (oth : Route.Gate → Matrix (St N) (St N) ℂ) (fire : ℕ → Bool)
+    (setup : Setup) (gs : List Route.Gate) (hw : ∀ g ∈ gs, WellFormed N g)
+    (hp : ∀ g ∈ gs, Handled g → PlainArg g)
+    (out : List Route.Gate) (ho : toChainV (.rep true) N setup gs = .ok out) :
+    den (condInterp fire (interpC N α oth)) out = den (condInterp fire (interpC N α oth)) gs :=
+  toChainV_den_C α oth fire true setup gs hw hp (fun h => absurd h (by decide)) out ho
+
+/-- **Without `fixes/C07-5.patch` the clause fails for conditioned gates**: the router re-emits
+CNOT(0→1) *if classical bit condition 1* as an unconditional CNOT (`extra` 1 ↦ 0; two neighbours on
+an open chain, no SWAP involved), and when the condition does not hold the routed circuit is the
+library CNOT matrix while the input circuit is the identity.  Confirmed on the real code
+(`qc.run(state, cbits=[0])` of input and output differ). -/
+theorem C07_counterexample_condition_dropped (α : ℕ → ℝ) (oth : Route.Gate → Matrix (St 2) (St 2) ℂ) :
+    toChainV (.rep false) 2 .linear [⟨.CNOT, [0], [1], 0, 1⟩] = .ok [⟨.CNOT, [0], [1], 0, 0⟩] ∧
+    toChainV (.rep true) 2 .linear [⟨.CNOT, [0], [1], 0, 1⟩] = .ok [⟨.CNOT, [0], [1], 0, 1⟩] ∧
+    den (condInterp (fun _ => false) (interpC 2 α oth)) [⟨.CNOT, [0], [1], 0, 0⟩] ≠
+      den (condInterp (fun _ => false) (interpC 2 α oth)) [⟨.CNOT, [0], [1], 0, 1⟩] := by
+  refine ⟨by decide, by decide, ?_⟩
+  have h0 : Handled ⟨.CNOT, [0], [1], 0, 0⟩ := Or.inl rfl
+  have h1 : Handled ⟨.CNOT, [0], [1], 0, 1⟩ := Or.inl rfl
+  simp only [den, condInterp, interpC, if_pos h0, one_mul]
+  simp only [Nat.one_ne_zero, Bool.false_eq_true, or_self, if_false, or_false, if_true]
+  exact interpH_cnot_ne_one α
 
 -- conventions: on two qubits CNOT(control 0, target 1) is the library matrix itself, and the
 -- interpretation of the routed circuit of the example after `route_in_range` is that of the gate
@@ -314,8 +396,19 @@ example (α : ℕ → ℝ) (oth : Route.Gate → Matrix (St 9) (St 9) ℂ) :
     den (interpC 9 α oth)
       [swapG 5 6, swapG 8 0, swapG 6 7, ⟨.CNOT, [8], [7], 0, 0⟩, swapG 6 7, swapG 8 0, swapG 5 6] =
     interpC 9 α oth ⟨.CNOT, [0], [5], 0, 0⟩ :=
-  route_den_gate_C 9 α oth .circular (Or.inr rfl) ⟨.CNOT, [0], [5], 0, 0⟩
+  route_den_gate_C 9 α oth false .circular ⟨.CNOT, [0], [5], 0, 0⟩
     ⟨fun _ => ⟨0, 5, rfl, rfl, by decide, by decide, by decide⟩, fun h => absurd h (by decide)⟩
-    (Or.inl rfl) ⟨rfl, fun _ => rfl⟩ _ (by decide)
+    (Or.inl rfl) (fun _ => rfl) (fun _ => rfl) _ (by decide)
+
+-- … and with a condition, through any other setup string, for every classical state
+example (α : ℕ → ℝ) (oth : Route.Gate → Matrix (St 4) (St 4) ℂ) (fire : ℕ → Bool) :
+    den (condInterp fire (interpC 4 α oth))
+      [swapG 1 2, swapG 3 0, ⟨.CNOT, [3], [2], 0, 5⟩, swapG 3 0, swapG 1 2] =
+    den (condInterp fire (interpC 4 α oth)) [⟨.CNOT, [0], [1], 0, 5⟩] :=
+  route_den_cond_C 4 α oth fire .other [⟨.CNOT, [0], [1], 0, 5⟩]
+    (fun g hg => by
+      simp only [List.mem_singleton] at hg; subst hg
+      exact ⟨fun _ => ⟨0, 1, rfl, rfl, by decide, by decide, by decide⟩, fun h => absurd h (by decide)⟩)
+    (fun g hg _ => by simp only [List.mem_singleton] at hg; subst hg; exact fun _ => rfl) _ (by decide)
 
 end QipVerif.C07
